@@ -19,6 +19,10 @@ BOUNDARY = [
     '{}', '{a: 1}', '{a: 1, b:: 2, c::: 3}', '{"": {}}', 'function(x) x', 'function(x, y) x', 'function() 1', 'std',
     'std.range(0, 300)', 'std.repeat("ab", 200)', '{[std.toString(i)]: i for i in std.range(0, 40)}', 'error "arg"',
 ]
+# composite values of mixed shape (tables inside arrays after scalars and the reverse, empty containers inside):
+# every parameter of every function of std gets each of them at least once, in both tiers
+NESTED = ['{a: [{b: 1}, 2]}', '[{b: 1}, 2]', '{t: {a: [{}, [3]]}}', '[[1], {a: 1}]', '{a: [[{b: 1}], {c: null}]}', '{a: {b: {c: [1, {d: 2}]}}}',
+          '[2, {b: 1}]', '{a: [], b: {}, c: [{}], d: [[]]}', '{a: [{b: 1}, {c: [{d: 1}, 3]}]}']
 CALLBACKS = ['function(x) x', 'function(x, y) x + y', 'function() 1', 'function(x, y, z) z', 'function(x, y=1) y', 'std.pow', 'std.length']
 CONTAINERS = ['[1, 2]', '["a", "b"]', '"ab"', '{a: 1, b: 2}', '[[1], [2]]', '[]', '""', '{}', '2', '0']
 SMALL = ['null', 'true', '0', '-1', '1.5', '1e308', '5e-324', '9007199254740992', '""', '"a"', '"é😀"', '[]', '[1, "a"]', '{}', '{a: 1}',
@@ -89,7 +93,7 @@ def utf8_grid():
 
 def format_grid(rng, quick):
     """Every conversion x width x precision x argument form, at top level and nested inside other expressions."""
-    convs = list('diouxXeEfFgGcs%') + ['r', 'z', '']
+    convs = list('diouxXeEfFgGcs%') + ['r', 'z', '', 'é', '€', '😀']       # incl. non-ASCII characters in conversion position
     widths = ['', '5', '*', '0']
     precs = ['', '.3', '.*', '.', '.0']
     flags = ['', '-', '0', '+', ' ', '#', '-0+ #']
@@ -260,6 +264,13 @@ def run(rep):
             for _ in range(n):
                 pool = rng.choice([BOUNDARY, SMALL, CALLBACKS + CONTAINERS])
                 calls.append('std.%s(%s)' % (name, ', '.join(rng.choice(pool if rng.random() < 0.7 else SMALL) for _ in range(arity))))
+    for name, ty, arity in members:
+        if ty == 'function' and int(arity) >= 1:
+            for pos in range(int(arity)):
+                for v in NESTED:
+                    args = [rng.choice(SMALL + CONTAINERS) for _ in range(int(arity))]
+                    args[pos] = v
+                    calls.append('std.%s(%s)' % (name, ', '.join(args)))
     # operators on the same grid
     for op in ['+', '-', '*', '/', '%', '<<', '>>', '&', '|', '^', '<', '<=', '==', '!=', 'in', '&&', '||']:
         for _ in range(40 if quick else 600):
